@@ -197,6 +197,7 @@ func (w *failWriter) Write(p []byte) (int, error) {
 
 type optRun struct {
 	parseOut, execOut, log string
+	execLog                string // what the execution wrote to the Prog's own log writer
 	execOutB, execLogB     string // what reached the writers given to Execute only
 	blocks, binding, err   string
 	parseErr               string
@@ -237,6 +238,7 @@ func (c19) Run(t *testing.T, sc *Scenario) *Outcome {
 		}
 		r.execOut, r.blocks, r.binding, r.err = mem.OutBuf.String()[o0:], ex.Blocks, ex.Binding, ex.Err
 		r.log += mem.LogBuf.String()[l0:]
+		r.execLog = mem.LogBuf.String()[l0:]
 		r.execOutB, r.execLogB = ex.Out, ex.Log
 	}
 	base := runs[0]
@@ -392,6 +394,15 @@ func (c19) Run(t *testing.T, sc *Scenario) *Outcome {
 	if len(o.Violations) > 0 {
 		return o
 	}
+	// ---- a Prog object with a past: it held another program that was listed when parsed and
+	// traced when run, and then received this program through Load. Listing, trace and
+	// statistics of the new program are those of a Prog that never held anything else.
+	if base.dump != nil && len(base.dump) < 30000 {
+		c19Reloaded(sc, o, &runs, withOpt)
+		if len(o.Violations) > 0 {
+			return o
+		}
+	}
 	// ---- a failing output writer (full disk, closed pipe): what goes wrong with the observers'
 	// extra text must not change the result either
 	if len(sc.Src) < 20000 {
@@ -526,6 +537,83 @@ func (c19) Run(t *testing.T, sc *Scenario) *Outcome {
 		o.probe("rejected_programs", 1)
 	}
 	return o
+}
+
+var c19Earlier = []string{
+	"print 1\n",
+	"# earlier program\n\ndef t \"x\" { f = 1; g = f + 2 }\nvar a = 10\nvar b = a * 3\nprint \"earlier\", a, b\nprint a and b or 0\nbind t -> struct\n" +
+		strings.Repeat("print \"more code than most programs have\" + \"!\"\n", 40),
+}
+
+// c19Reloaded executes, under all 8 settings, a Prog that listed and traced an earlier program
+// before the scenario's program was loaded into it, and compares with the direct runs.
+func c19Reloaded(sc *Scenario, o *Outcome, runs *[8]optRun, withOpt func(int) *Scenario) {
+	base := runs[0]
+	for which, earlier := range c19Earlier {
+		if which != int(hash64(string(sc.Src))>>7)%len(c19Earlier) {
+			continue // one past per run: a shorter or a longer earlier program
+		}
+		var pout, plog bytes.Buffer
+		var p *bcl.Prog
+		prep := ""
+		func() {
+			defer func() {
+				if x := recover(); x != nil {
+					prep = panicSig(x)
+				}
+			}()
+			var err error
+			p, err = bcl.Parse([]byte(earlier), sc.Name, bcl.OptOutput(&pout), bcl.OptLogger(&plog), bcl.OptDisasm(true))
+			if err != nil {
+				prep = err.Error()
+				return
+			}
+			bcl.Execute(p, bcl.OptTrace(true), bcl.OptStats(true))
+			if err := p.Load(bytes.NewReader(base.dump)); err != nil {
+				prep = "load: " + err.Error()
+			}
+		}()
+		if prep != "" {
+			o.probe("reload_not_possible", 1) // C09's and C13's concern
+			return
+		}
+		for opt := 0; opt < 8; opt++ {
+			r := runs[opt]
+			if r.panicText != "" || !r.accepted {
+				continue
+			}
+			var outB, logB bytes.Buffer
+			o0, l0 := pout.Len(), plog.Len()
+			ex := Exec(p, &outB, &logB, opt&^OptDisasm)
+			o.Evals++
+			name := optName(opt &^ OptDisasm)
+			if ex.Panic != "" {
+				o.viol("C19", "panic", "reloaded Prog with options:"+normSig(ex.Panic),
+					fmt.Sprintf("a Prog that listed and traced an earlier program (#%d) and then loaded this one panics when executed with %s: %s", which, name, ex.Panic), withOpt(opt))
+				return
+			}
+			own := pout.String()[o0:]
+			var diffs []string
+			cmp := func(what, a, b string) {
+				if a != b {
+					diffs = append(diffs, fmt.Sprintf("%s: %q vs %q when the Prog is fresh", what, short(a, 300), short(b, 300)))
+				}
+			}
+			cmp("error", ex.Err, r.err)
+			cmp("blocks", ex.Blocks, r.blocks)
+			cmp("binding", ex.Binding, r.binding)
+			cmp("output on the Prog's writer", own, r.execOut)
+			cmp("output on Execute's writer (trace, statistics)", ex.Out, r.execOutB)
+			cmp("warnings on the Prog's log writer", plog.String()[l0:], r.execLog)
+			cmp("text on Execute's log writer", ex.Log, r.execLogB)
+			if len(diffs) > 0 {
+				o.viol("C19", "trace", "a Prog that listed or traced another program before Load shows stale rows or results:"+strings.SplitN(diffs[0], ":", 2)[0],
+					fmt.Sprintf("earlier program #%d, executed with %s: %s", which, name, strings.Join(diffs, "; ")), withOpt(opt))
+				return
+			}
+		}
+	}
+	o.probe("reloaded_prog_runs", 1)
 }
 
 func optName(opt int) string {
